@@ -46,11 +46,12 @@ NmN == <<C("O", "n")>>
 NmN2 == <<C("O", "n"), C("O", "_2")>>
 ThreeTiers(n1, n2, n3) ==
   [lo |-> Nm(0, "int"), hi |-> Nm(9, "int"),
-   tiers |-> << [kind |-> "I", name |-> n1, lo |-> Nm(0, "int"), hi |-> Nm(9, "int"),
-                 ents |-> << [s |-> Nm(0, "int"), e |-> Nm(1, "dec"), l |-> <<>>], [s |-> Nm(1, "dec"), e |-> Nm(2, "dec"), l |-> <<C("O", "x")>>] >>],
-                \* (this tier's own span ends before the file's)
+   \* the first two tiers end before the file does (a later tier is wider than an earlier one); runs of two blank entries
+   tiers |-> << [kind |-> "I", name |-> n1, lo |-> Nm(0, "int"), hi |-> Nm(3, "int"),
+                 ents |-> << [s |-> Nm(0, "int"), e |-> Nm(1, "dec"), l |-> <<>>], [s |-> Nm(1, "dec"), e |-> Nm(2, "dec"), l |-> <<>>],
+                             [s |-> Nm(2, "dec"), e |-> Nm(3, "dec"), l |-> <<C("O", "x")>>] >>],
                 [kind |-> "P", name |-> n2, lo |-> Nm(0, "int"), hi |-> Nm(3, "dec"),
-                 ents |-> << [t |-> Nm(1, "dec"), l |-> <<>>], [t |-> Nm(3, "dec"), l |-> <<C("O", "x")>>] >>],
+                 ents |-> << [t |-> Nm(1, "dec"), l |-> <<>>], [t |-> Nm(2, "dec"), l |-> <<>>], [t |-> Nm(3, "dec"), l |-> <<C("O", "x")>>] >>],
                 [kind |-> "I", name |-> n3, lo |-> Nm(0, "int"), hi |-> Nm(9, "int"), ents |-> <<>>] >>]
 DocsC == { ThreeTiers(n1, n2, n3) : n1 \in {NmN}, n2 \in {NmN, NmN2, <<C("O", "p")>>}, n3 \in {NmN, NmN2, <<C("O", "x")>>} }
 \* labels consisting of or surrounded by white space (the reader trims; an all-blank label counts as empty)
